@@ -113,10 +113,16 @@ impl Package {
     pub fn extract(&self, dest: impl AsRef<Path>) -> Result<(), Error> {
         fs::create_dir(&dest)?;
 
-        let dirs = self
+        // a package without files has no directory names either
+        let dirs = match self
             .metadata
             .header
-            .get_entry_data_as_string_array(IndexTag::RPMTAG_DIRNAMES)?;
+            .get_entry_data_as_string_array(IndexTag::RPMTAG_DIRNAMES)
+        {
+            Ok(dirs) => dirs,
+            Err(Error::TagNotFound(_)) => &[],
+            Err(e) => return Err(e),
+        };
 
         // pull every base directory name in the package and create the directory in advance
         for dir in dirs {
